@@ -52,12 +52,42 @@ type c38Params struct {
 	ExtraShard  int
 	EarlyExtras bool
 	Hostile     float64
+	// histories in which a phase's move condition can hold while the phase's own step cannot complete (min_n above K)
+	StepFail   int     // 0: ordinary history; 1: the 4 genesis miners with min_n=4 (K=3); 2: 7 known miners, min_n=5 (K=3), newcomers register late
+	MinN       int     // minersc.min_n of this history (the repository's sc.yaml says 3)
+	LateExtras bool    // newcomers are in the chain's current magic block but register in the rounds LateAt, not in the set-up block
+	LateAt     []int64 // registration round per newcomer (miners first, then sharders)
 }
+
+// c38Hists is the number of ordinary histories of a tier; the step-failure histories follow them (indices c38Hists.. onwards).
+func c38Hists(tier string) int     { return scale(tier, 24, 64) }
+func c38StepHists(tier string) int { return scale(tier, 8, 16) }
 
 func c38ParamsOf(tier string, idx int) c38Params {
 	r := mon.NewRand(mon.Seed()).Fork(fmt.Sprintf("c38-params-%d", idx))
-	p := c38Params{Idx: idx, WorldSeed: mon.Seed()*977 + uint64(idx)}
+	p := c38Params{Idx: idx, WorldSeed: mon.Seed()*977 + uint64(idx), MinN: 3}
 	p.Rounds = scale(tier, 130, 600)
+	if idx >= c38Hists(tier) {
+		// K <= contributions < min_n is possible here: the end of Contribute finds K public keys (condition holds) but the DKG list
+		// cannot be cut down to the contributors; the end of Publish finds K share sets but the magic block would have too few miners;
+		// and (variant 2) the end of Start finds a previous miner and sharder registered but fewer than min_n miners
+		for i := range p.PhaseRounds {
+			p.PhaseRounds[i] = int64(2 + r.Intn(3))
+		}
+		p.Hostile = 0.15
+		if (idx-c38Hists(tier))%2 == 0 {
+			p.StepFail, p.MinN = 1, 4
+			return p
+		}
+		p.StepFail, p.MinN = 2, 5
+		p.ExtraMiners, p.ExtraShard, p.LateExtras = 3, 1, true
+		at := int64(8 + r.Intn(10))
+		for i := 0; i < p.ExtraMiners+p.ExtraShard; i++ {
+			p.LateAt = append(p.LateAt, at)
+			at += int64(6 + r.Intn(14))
+		}
+		return p
+	}
 	for i := range p.PhaseRounds {
 		p.PhaseRounds[i] = int64(2 + r.Intn(4))
 	}
@@ -113,6 +143,10 @@ type c38 struct {
 	oplog       []string
 	mbProduced  int
 	viewChanges int
+
+	// reference: the round of the last observed reset of the key generation
+	restartAt   int64
+	restartSeen bool
 }
 
 func (c *c38) logf(format string, a ...interface{}) {
@@ -519,6 +553,11 @@ func (c *c38) plan(v vcState) {
 			// histories with enough newcomers try a key generation without the set in force more often
 			c.policy = []string{"only-new-miners-contribute", "only-new-miners-contribute", "only-new-sharders-keep"}[c.r.Intn(3)]
 		}
+		if c.p.StepFail > 0 && c.r.Chance(0.6) {
+			// exactly K contributors, or everybody contributes and exactly K publish: with min_n above K the move condition of the
+			// phase holds and the phase's own step cannot complete
+			c.policy = []string{"exactly-k", "k-of-n-publish"}[c.r.Intn(2)]
+		}
 		c.dkgs = map[string]*tbls.DKG{}
 		c.lastPub = map[string][]byte{}
 	case minersc.Contribute:
@@ -564,6 +603,13 @@ func (c *c38) plan(v vcState) {
 		ids := members()
 		if c.policy == "k-minus-1-publish" && len(ids) > v.DKG.K-1 {
 			ids = ids[:max(0, v.DKG.K-1)]
+		}
+		if c.policy == "k-of-n-publish" {
+			// K publishers, one of them from the previous set; the other contributors stay silent
+			sort.SliceStable(ids, func(i, j int) bool { return c.prevMiners[ids[i]] && !c.prevMiners[ids[j]] })
+			if len(ids) > v.DKG.K {
+				ids = ids[:max(0, v.DKG.K)]
+			}
 		}
 		for _, id := range ids {
 			c.offsets[id] = off()
@@ -929,6 +975,18 @@ func (c *c38) oneBlock() {
 		c.plan(before)
 	}
 	// the block's transactions
+	if c.p.LateExtras {
+		i := 0
+		for _, a := range c.nodes {
+			if a.Genesis {
+				continue
+			}
+			if !a.Registered && i < len(c.p.LateAt) && rn >= c.p.LateAt[i] {
+				c.register(a)
+			}
+			i++
+		}
+	}
 	c.planned(before)
 	for i := 0; i < 3; i++ {
 		if c.r.Chance(c.p.Hostile) {
@@ -1006,6 +1064,7 @@ func (c *c38) judgeTransition(rn int64, before, mid, after vcState, paid int, va
 	c.run.Count("transition:"+phaseName(from)+"->"+phaseName(to)+":"+kind, 1)
 	c.run.Distinct(fmt.Sprintf("transition:%s->%s:%s:policy=%s:pay=%s", phaseName(from), phaseName(to), kind, c.policy, variant))
 	ev := map[string]interface{}{"round": rn, "before": before.PN, "after": after.PN, "phase_rounds": c.p.PhaseRounds, "payfees": variant, "paid": paid, "mpks": len(mid.MPKs.Mpks), "gsos": len(mid.GSoS.Shares), "dkg": len(mid.DKG.SimpleNodes), "k": mid.DKG.K, "keep": len(mid.Keep)}
+	c.judgeRestartAndEntry(rn, before, mid, after, kind, paid, ev)
 	if kind == "other" {
 		c.lim.Violate("C38:phase-skipped", fmt.Sprintf("round %d: the stored phase went from %s to %s", rn, phaseName(from), phaseName(to)), c.replay(ev))
 	}
@@ -1094,6 +1153,120 @@ func (c *c38) judgeTransition(rn int64, before, mid, after vcState, paid int, va
 			ev["registered_miners"], ev["registered_sharders"], ev["of_previous_set"] = len(regM), len(regS), []int{pm, ps}
 			c.lim.Violate("C38:restart-although-condition-holds:start", fmt.Sprintf("round %d: the start phase ran %d of %d rounds with %d registered miners (%d of the set in force) and %d registered sharders (%d of the set in force), yet the key generation restarted instead of moving to contribute (%d completed view change(s) before)", rn, elapsed, need, len(regM), pm, len(regS), ps, c.viewChanges), c.replay(ev))
 		}
+	}
+}
+
+// judgeRestartAndEntry: "otherwise the key generation restarts at Start" and what the Contribute phase starts from.
+//
+//   - a payFees that reset the key generation (the public keys gathered so far are gone although the phase did not advance, or the
+//     stored restart count grew) must leave the phase at Start, started in this round;
+//   - Contribute is not entered before Start has run its configured rounds since the last such reset, whatever the stored phase
+//     node says about the phase it came from;
+//   - Contribute starts with the participating miners listed: the DKG miner list is the set of registered miners (the harness knows
+//     whom it registered), with T and K of at least 1 - contributeMpk is judged against this list ("once per participating miner").
+//     Not judged in the round in which the stored magic block takes effect (see below).
+//
+// It also counts the phase ends at which the move condition (as far as the statement gives it: K keys / K share sets, a kept
+// sharder, members of the previous set) holds while fewer than min_n miners are left, so that the evidence shows they happened.
+func (c *c38) judgeRestartAndEntry(rn int64, before, mid, after vcState, kind string, paid int, ev map[string]interface{}) {
+	from, to := before.PN.Phase, after.PN.Phase
+	if mid.GN != nil && mid.GN.MinN > 0 && mid.GN.MinN != c.p.MinN {
+		panic(fmt.Sprintf("min_n not taken from the configuration: %d vs %d", mid.GN.MinN, c.p.MinN))
+	}
+	entered := to != from || after.PN.StartRound != before.PN.StartRound
+	wiped := entered && kind != "advance" && len(mid.MPKs.Mpks) > 0 && len(after.MPKs.Mpks) == 0
+	counted := after.PN.Restarts > before.PN.Restarts
+	if wiped || counted || kind == "restart" {
+		c.run.Count("monitor:restart-lands-at-start", 1)
+		c.restartAt, c.restartSeen = rn, true
+		if to != minersc.Start || after.PN.StartRound != rn {
+			how := "the public keys gathered so far were dropped"
+			if counted {
+				how = fmt.Sprintf("the stored restart count went from %d to %d", before.PN.Restarts, after.PN.Restarts)
+			}
+			c.lim.Violate("C38:restart-not-at-start", fmt.Sprintf("round %d: the key generation was restarted at the end of %s (%s; %d public keys, %d share sets, %d DKG miners, K=%d before), but the stored phase is %s started in round %d instead of start started in round %d", rn, phaseName(from), how, len(mid.MPKs.Mpks), len(mid.GSoS.Shares), len(mid.DKG.SimpleNodes), mid.DKG.K, phaseName(to), after.PN.StartRound, rn), c.replay(ev))
+		}
+	}
+	if entered && to == minersc.Contribute {
+		c.run.Count("monitor:contribute-entry", 1)
+		if c.restartSeen && rn-c.restartAt < minersc.PhaseRounds[minersc.Start] {
+			c.lim.Violate("C38:contribute-entered-before-start-ran-its-rounds", fmt.Sprintf("round %d: contribute was entered %d round(s) after the key generation restarted in round %d; start lasts %d rounds", rn, rn-c.restartAt, c.restartAt, minersc.PhaseRounds[minersc.Start]), c.replay(ev))
+		}
+		reg := map[string]bool{}
+		for _, a := range c.byKind("miner", func(a *actor) bool { return a.Registered }) {
+			reg[a.W.ID] = true
+		}
+		missing, foreign := 0, 0
+		for id := range reg {
+			if _, ok := after.DKG.SimpleNodes[id]; !ok {
+				missing++
+			}
+		}
+		for id := range after.DKG.SimpleNodes {
+			if !reg[id] {
+				foreign++
+			}
+		}
+		if len(after.DKG.SimpleNodes) == 0 && mid.RawMB != nil && mid.RawMB.StartingRound == rn {
+			// the round in which the stored magic block takes effect: after the phase step the same payFees adjusts the view change
+			// and empties the DKG miner list (those who did not send wait are dropped, then the list is reset). A contribute phase can
+			// only start in that very round when start lasts 0 rounds and the block has a second payFees; the list built by the phase
+			// step is not observable then. Recorded, not judged.
+			c.run.Count("observations:contribute-entered-in-view-change-round-dkg-list-emptied", 1)
+			c.logf("r%d contribute entered in the view-change round of the stored magic block: DKG miner list empty after payFees", rn)
+		} else if missing > 0 || foreign > 0 || after.DKG.T < 1 || after.DKG.K < 1 {
+			ev["dkg_after"] = map[string]interface{}{"listed": len(after.DKG.SimpleNodes), "registered": len(reg), "missing": missing, "foreign": foreign, "t": after.DKG.T, "k": after.DKG.K, "n": after.DKG.N}
+			c.lim.Violate("C38:contribute-entered-without-dkg-miners", fmt.Sprintf("round %d: contribute started (from %s) with a DKG miner list of %d (T=%d K=%d N=%d) while %d miners are registered: %d of them not listed, %d listed that never registered", rn, phaseName(from), len(after.DKG.SimpleNodes), after.DKG.T, after.DKG.K, after.DKG.N, len(reg), missing, foreign), c.replay(ev))
+		}
+	}
+	// phase ends at which the condition holds and the step cannot complete (min_n from the history's configuration)
+	if paid == 0 || rn-before.PN.StartRound < minersc.PhaseRounds[from] {
+		return
+	}
+	prevIn := func(ids []string, prev map[string]bool) bool {
+		for _, id := range ids {
+			if prev[id] {
+				return true
+			}
+		}
+		return false
+	}
+	hit := false
+	switch from {
+	case minersc.Start:
+		regM := c.byKind("miner", func(a *actor) bool { return a.Registered })
+		regS := c.byKind("sharder", func(a *actor) bool { return a.Registered })
+		var mi, si []string
+		for _, a := range regM {
+			mi = append(mi, a.W.ID)
+		}
+		for _, a := range regS {
+			si = append(si, a.W.ID)
+		}
+		hit = len(regM) < c.p.MinN && len(regM) >= mid.DKG.K && len(regS) >= 1 && prevIn(mi, c.prevMiners) && prevIn(si, c.prevSharders)
+	case minersc.Contribute:
+		n := 0
+		for id := range mid.MPKs.Mpks {
+			if _, ok := mid.DKG.SimpleNodes[id]; ok {
+				n++
+			}
+		}
+		hit = mid.DKG.K >= 1 && len(mid.MPKs.Mpks) >= mid.DKG.K && n < c.p.MinN && len(mid.Keep) >= 1 && prevIn(sortedKeys(mid.MPKs.Mpks), c.prevMiners) && prevIn(mid.Keep, c.prevSharders)
+	case minersc.Publish:
+		n := 0
+		for id := range mid.GSoS.Shares {
+			_, a := mid.DKG.SimpleNodes[id]
+			_, b := mid.MPKs.Mpks[id]
+			if a && b {
+				n++
+			}
+		}
+		hit = mid.DKG.K >= 1 && len(mid.GSoS.Shares) >= mid.DKG.K && n < c.p.MinN && prevIn(sortedKeys(mid.GSoS.Shares), c.prevMiners)
+	}
+	if hit {
+		c.run.Count("boundary:condition-holds-but-fewer-than-min_n:"+phaseName(from), 1)
+		c.run.Distinct(fmt.Sprintf("boundary:condition-holds-but-fewer-than-min_n:%s:%s->%s:policy=%s", phaseName(from), kind, phaseName(to), c.policy))
+		c.logf("r%d end of %s: condition holds, fewer than min_n=%d miners left -> %s/%d (%s)", rn, phaseName(from), c.p.MinN, phaseName(to), after.PN.StartRound, kind)
 	}
 }
 
@@ -1214,6 +1387,13 @@ func c38Child(tier string, idx int) (code int) {
 		sc["minersc.k_percent"] = 0.4
 		sc["minersc.t_percent"] = 0.3
 	}
+	if p.LateExtras {
+		sc["minersc.k_percent"] = 0.4 // 7 miners in the chain's current magic block: K = 3, below min_n = 5
+		sc["minersc.t_percent"] = 0.3
+	}
+	if p.StepFail > 0 {
+		sc["minersc.min_n"] = p.MinN
+	}
 	c.w = world.New(world.Options{Seed: p.WorldSeed, ViewChange: true, NumClients: 6, SCSet: sc})
 	defer c.w.Close()
 	logging.Logger = zap.NewNop()
@@ -1247,7 +1427,7 @@ func c38Child(tier string, idx int) (code int) {
 	for i := 0; i < p.ExtraShard; i++ {
 		c.nodes = append(c.nodes, &actor{W: c.w.AddWallet(fmt.Sprintf("xsharder%d", i)), Kind: "sharder", Host: fmt.Sprintf("xsharder%d.verif.test", i), Port: 7181 + i})
 	}
-	if p.EarlyExtras {
+	if p.EarlyExtras || p.LateExtras {
 		// add_miner / add_sharder only take nodes of the chain's current magic block. Give the chain a current magic block (number 2,
 		// starting at round 1) that lists the newcomers too, while its latest finalized one - the "previous set" the contract refers
 		// to - stays the genesis magic block.
@@ -1327,8 +1507,8 @@ func c38Child(tier string, idx int) (code int) {
 
 func c38Parent(tier string) int {
 	run := mon.NewRun("C38", tier, "exploration",
-		"block histories on a view-change-enabled chain (4 genesis miners + 2 sharders registered and staked, up to 3 more miners and 1 sharder joining), every block executed through the real Chain.UpdateState and closed by the generator's payFees; per cycle a policy decides who contributes keys / keeps sharders / publishes shares / waits (real DKG polynomials, signatures of the real node keys), hostile DKG transactions are mixed in at any time; the phase node, DKG list, keys, shares, keep list and magic block are read back raw from the state trie after every transaction/block; distinct = (function, phase, input class, outcome) and (transition, policy, payFees variant) tuples")
-	n := scale(tier, 24, 64)
+		"block histories on a view-change-enabled chain (4 genesis miners + 2 sharders registered and staked, up to 3 more miners and 1 sharder joining), every block executed through the real Chain.UpdateState and closed by the generator's payFees; per cycle a policy decides who contributes keys / keeps sharders / publishes shares / waits (real DKG polynomials, signatures of the real node keys), hostile DKG transactions are mixed in at any time; 8 further histories (16 in the thorough tier) run with min_n above K (4 miners min_n=4, or 7 known miners min_n=5 registering late) and policies with exactly K contributors / exactly K publishers, so that phases end with their condition holding and their step unable to complete; the phase node, DKG list, keys, shares, keep list and magic block are read back raw from the state trie after every transaction/block; distinct = (function, phase, input class, outcome) and (transition, policy, payFees variant) tuples")
+	n := c38Hists(tier) + c38StepHists(tier)
 	var specs []mon.ChildSpec
 	for i := 0; i < n; i++ {
 		specs = append(specs, mon.ChildSpec{Name: fmt.Sprintf("hist-%d", i), Args: childArgs("C38", tier, "hist", i, ""), Timeout: time.Duration(scale(tier, 110, 900)) * time.Second})
@@ -1349,6 +1529,12 @@ func c38Parent(tier string) int {
 	run.RequireMin("monitor:magic-block", int64(scale(tier, 6, 40)))
 	run.RequireMin("accepted:contributeMpk", int64(scale(tier, 30, 200)))
 	run.RequireMin("accepted:shareSignsOrShares", int64(scale(tier, 20, 150)))
+	run.RequireMin("boundary:condition-holds-but-fewer-than-min_n:contribute", int64(scale(tier, 5, 40)))
+	run.RequireMin("boundary:condition-holds-but-fewer-than-min_n:publish", int64(scale(tier, 5, 40)))
+	run.RequireMin("boundary:condition-holds-but-fewer-than-min_n:start", int64(scale(tier, 2, 8)))
+	run.RequireMin("monitor:restart-lands-at-start", int64(scale(tier, 60, 400)))
+	run.RequireMin("monitor:contribute-entry", int64(scale(tier, 100, 800)))
+	run.Assume("a reset of the key generation is recognised from the state around one payFees: the phase went back to start, or the public keys gathered so far are gone without the phase having advanced, or the stored restart count grew; the participating miners of a contribute phase are the miners whose add_miner succeeded (nothing in these histories removes a miner)")
 	run.Assume("move conditions are judged as necessary conditions only (elapsed rounds from the contract's PhaseRounds, number of keys / share sets against K, kept sharders against min_s, a previous-set miner among the keys); a restart that the statement would not require is not a violation")
 	run.Assume("the chain's own latest finalized magic block stays the genesis one (no finalization in this world); the contract keeps the magic block of each completed view change in its global node, and the oracle tracks the membership in force from the stored bytes of the magic blocks that blocks actually carried")
 	run.Assume("add_miner/add_sharder only take nodes of the chain's current magic block; every third history therefore installs a current magic block (number 2) that also lists 3 new miners and 1 new sharder while the latest finalized one stays genesis, and lowers k_percent/t_percent so that the newcomers alone reach K: only then can a key generation without a previous member be attempted at all")
